@@ -73,6 +73,9 @@ func round(s *slip.Scope, f slip.Object, args slip.List, depth int) slip.Values 
 	switch tn := num.(type) {
 	case slip.Fixnum:
 		d := div.(slip.Fixnum)
+		if q, r = fixnumQuoOverflow(tn, d); q != nil {
+			break
+		}
 		q = tn / d
 		r = tn - q.(slip.Fixnum)*d
 		if r == slip.Fixnum(0) {
